@@ -105,6 +105,8 @@ def plan(tier, seed):
     cases += [{"fam": "rand", "k": i, "n": RAND_PER_CASE} for i in range(nrand)]
     cases += [{"fam": "scalar", "k": i, "n": 12} for i in range(nscal)]
     cases += [{"fam": "kinds", "k": i, "n": 6} for i in range(nkind)]
+    # long index arrays (thousands of dofs) that differ only in their interior (all dofs / all dofs but some / all but others)
+    cases += [{"fam": "longindex", "k": i} for i in range(4 if tier == "quick" else 40)]
     return cases
 
 
@@ -1009,9 +1011,47 @@ def _history_kinds(pym, ctx, rng, kind):
 
 
 # =========================================================================== run_case
+def _run_longindex(case, ctx, pym):
+    from ..core import require
+    rng = ctx.rng("longindex", case["k"])
+    n = int(rng.integers(1200, 4000))
+    x0 = rng.standard_normal(n)
+    s = pym.Signal("x", x0.copy())
+    allidx = np.arange(n)
+    a, b = sorted(int(v) for v in rng.integers(10, n - 10, 2))
+    b = max(b, a + 5)
+    sets = [allidx, np.concatenate([allidx[:a], allidx[b:]]), np.concatenate([allidx[:a + 2], allidx[b + 1:]])]
+    order = rng.permutation(3)
+    want_sens = np.zeros(n)
+    want_state = x0.copy()
+    for o in order:
+        ix = sets[int(o)]
+        sl = s[ix]
+        got = np.asarray(sl.state)
+        require(got.shape == ix.shape and bool(np.array_equal(got, want_state[ix])), "long-index/slice-reads-other-entries", n=n, size=int(ix.size))
+        v = rng.standard_normal(ix.size)
+        sl.add_sensitivity(v)
+        want_sens[ix] += v
+        require(bool(np.allclose(np.asarray(s.sensitivity), want_sens, rtol=0, atol=1e-12)), "long-index/sensitivity-added-to-other-entries",
+                n=n, size=int(ix.size), interior_gap=[a, b])
+        w = rng.standard_normal(ix.size)
+        sl.state = w
+        want_state[ix] = w
+        require(bool(np.array_equal(np.asarray(s.state), want_state)), "long-index/state-written-to-other-entries", n=n, size=int(ix.size))
+        ctx.count("long_index_slices_checked")
+    sl = s[sets[1]]
+    sl.reset()
+    want_sens[sets[1]] = 0
+    sv = s.sensitivity
+    require(sv is not None and bool(np.allclose(np.asarray(sv), want_sens, rtol=0, atol=1e-12)), "long-index/slice-reset-clears-other-entries", n=n)
+    return {"key": f"longindex/{case['k']}", "nontrivial": True, "obs": {"n": n, "gap": [a, b]}}
+
+
 def run_case(case, ctx):
     import pymoto as pym
     fam = case["fam"]
+    if fam == "longindex":
+        return _run_longindex(case, ctx, pym)
     if fam == "enum":
         vi, prefix, L = case["var"], list(case["prefix"]), case["L"]
         nA = len(ALPHABET)
